@@ -726,10 +726,10 @@ static void sc_alarm(int sig)
 }
 #define SC_EXIT_TIMEOUT 94
 
+/* seconds of process CPU time (not wall clock): load-independent */
 static void sc_watchdog(int seconds)
 {
-    signal(SIGALRM, sc_alarm);
-    alarm((unsigned)seconds);
+    vt_watchdog_start(seconds, sc_alarm);
 }
 
 static const char *sc_cmp(double a, double b)
